@@ -396,6 +396,8 @@ def run(repo, rep):
     common.state_rule(repo, rep, [('geodepy.convert', 'psfandgridconv'), ('geodepy.convert', 'geo2grid'), ('geodepy.convert', 'grid2geo')])
     rep.trust('sv/alg.py exact normal forms; generator independence modulo the rewrite rules applied')
     common.tm_division_rules(repo, rep)
+    # "in either direction": the position the inverse direction reports must be one the forward direction accepts
+    common.longitude_range_rule(repo, rep)
     # psfandgridconv is an observation point of its own: its latitude / longitude go through angular_typecheck (every angle class)
     fh_ = repo.func('geodepy.convert', 'psfandgridconv')
     for pn_ in (fh_.params[2].name, fh_.params[3].name):
